@@ -142,7 +142,23 @@ def check_C18(ctx, unit, nbits):
                     lp = path(l)
                     ls = l.strip()
                     if lp and len(lp) >= 2 and lp[0] == "this" and lp[1] == "buffer":
-                        out.append((n, lp[2] if len(lp) > 2 else "[*]", n.children[1], n.op))
+                        kind_ = lp[2] if len(lp) > 2 else "[*]"
+                        if kind_ == "[*]" and ls.kind == "ArraySubscriptExpr":
+                            # `for(i = 0; i != buffer_size; ++i) buffer[i] = v`: an index loop over all words
+                            iv_ = std_unwrap(ls.children[1])
+                            if iv_.kind == "DeclRefExpr":
+                                for nl_ in flow.natural_loops(f):
+                                    if not nl_.contains(n):
+                                        continue
+                                    info_ = flow.induction(f, nl_).get(iv_.d["d"])
+                                    if not info_ or not info_.get("steps") or info_.get("init") is None or not info_.get("bound"):
+                                        continue
+                                    op_, bnd_ = info_["bound"]
+                                    st_ = info_["steps"]
+                                    if op_ in ("<", "!=") and bnd_ is not None and flow.const_fold(f, info_["init"]) == 0 \
+                                            and flow.const_fold(f, bnd_) == ext and len(st_) == 1 and st_[0].kind == "UnaryOperator" and st_[0].op == "++":
+                                        kind_ = "[all]"
+                        out.append((n, kind_, n.children[1], n.op))
                     elif ls.kind == "DeclRefExpr" and ls.d["d"] in refs:
                         out.append((n, "[all]", n.children[1], n.op))
                     elif ls.kind == "UnaryOperator" and ls.op == "*":
@@ -416,6 +432,22 @@ def check_C18(ctx, unit, nbits):
                     sets = [n for n in f.events() if n.is_call() and n.callee and n.callee["n"] == "set"]
                     ok = False
                     why = "no call of set()"
+                    if not sets:
+                        # `return *this = static_cast<bool>(x);`: forwards to the proxy's own operator=(bool) with the source
+                        # converted through its operator bool
+                        for c_ in f.events():
+                            if c_.kind == "CXXOperatorCallExpr" and c_.callee and c_.callee.get("op") == "=" and c_.callee.get("clsqn") == f.owner_clsqn \
+                                    and c_.callee.get("ptypes") == ["bool"] and len(c_.args) == 2:
+                                tgt_ = std_unwrap(c_.args[0])
+                                on_this = tgt_.kind == "UnaryOperator" and tgt_.op == "*" and tgt_.children and std_unwrap(tgt_.children[0]).kind == "CXXThisExpr"
+                                val_ = c_.args[1]
+                                vs_ = std_unwrap(val_)
+                                if vs_.kind == "DeclRefExpr" and vs_.get("local") and vs_.d["d"] in RA.local_inits(f) and not RA._reassigned(f, vs_.d["d"]):
+                                    val_ = RA.local_inits(f)[vs_.d["d"]]        # (unstripped: the conversion sits on a cast node)
+                                conv_ = any(x.get("convfn", "").endswith("operator bool") and any(
+                                    y.kind == "DeclRefExpr" and y.d.get("d") == f.params()[0]["d"] for y in x.walk()) for x in val_.walk())
+                                ok = on_this and conv_
+                                why = "forwards to operator=(bool) on *this: %s; value is the source through operator bool: %s" % (on_this, conv_)
                     for s_ in sets:
                         a = s_.args
                         conv = any(x.get("convfn", "").endswith("operator bool") for x in a[1].walk()) if len(a) > 1 else False
@@ -523,6 +555,16 @@ def check_C18(ctx, unit, nbits):
                             r2 = flow.fact_relation(c_, t_)
                             if r2 and (canon(r2[0]).split("#")[0], r2[1], canon(r2[2]).split("#")[0]) == want:
                                 ok_b = True
+                        if not ok_b:
+                            # ... or the member was simply stored last: `_ctr = n;` makes `n <= _ctr` true
+                            ws_ = [x for x in f.events() if write_of(x) and write_of(x)[0] == ("this", fld[0]) and x.kind == "BinaryOperator" and x.op == "="]
+                            last_ = [x for x in ws_ if not any(f.reaches(x.id, y.id) for y in f.events()
+                                                             if y.id != x.id and write_of(y) and write_of(y)[0] == ("this", fld[0]))]
+                            ns_ = b_.nodes()
+                            if last_ and rel[1] in ("<=", "==") and all(f.dominates_block(f.positions()[x.id][0], b_.id) for x in last_):
+                                other_ = rel[0] if path(rel[2]) == ("this", fld[0]) else (rel[2] if rel[1] == "==" else None)
+                                if other_ is not None and all(canon(std_unwrap(x.children[1])).split("#")[0] == canon(std_unwrap(other_)).split("#")[0] for x in last_):
+                                    ok_b = True
                         holds = holds and ok_b
                     if not holds:
                         problems.append("operator() refills the state when %s %s %s, which is not established when seed() returns: "
@@ -534,6 +576,7 @@ def check_C18(ctx, unit, nbits):
             b = f.params()[0]["d"]
             rets = [r for r in f.return_nodes()]
             ok = False
+            thr_node, thr_form, thr_bad = None, None, None
             for r in rets:
                 v = r.child("val").strip()
                 if v.kind == "BinaryOperator" and v.op == "%" and v.children[1].strip().kind == "DeclRefExpr" and v.children[1].strip().d["d"] == b:
@@ -545,8 +588,24 @@ def check_C18(ctx, unit, nbits):
                         if rel and rel[1] == "<=" and std_unwrap(rel[2]).kind == "DeclRefExpr" and rv.kind == "DeclRefExpr" \
                                 and std_unwrap(rel[2]).d["d"] == rv.d["d"]:
                             thr = True
+                            thr_node = rel[0]
                     ok = thr
-            ctx.inst("T.prng-constants", f.sig, ok, f.loc, "returns r %% bound under r >= threshold: %s" % ok, f)
+                    # the threshold is 2^32 mod bound: (N % bound) with N == -bound (mod 2^32), N linear in bound
+                    if thr and thr_node is not None:
+                        tv = std_unwrap(RA.resolve_local(f, thr_node))
+                        hops = 0
+                        while tv.kind in ("ImplicitCastExpr", "CStyleCastExpr", "CXXStaticCastExpr", "CXXFunctionalCastExpr", "ParenExpr") and tv.children and hops < 6:
+                            tv, hops = std_unwrap(tv.children[0]), hops + 1
+                        if tv.kind == "BinaryOperator" and tv.op == "%" and std_unwrap(tv.children[1]).kind == "DeclRefExpr" \
+                                and std_unwrap(tv.children[1]).d["d"] == b:
+                            lin = _linear_in(tv.children[0], b)
+                            if lin is not None:
+                                thr_form = "(%d*bound + %d) %% bound" % lin
+                                if (lin[0] + 1) % (1 << 32) != 0 or lin[1] % (1 << 32) != 0:
+                                    ok = False
+                                    thr_bad = "the rejection threshold is %s, not 2^32 mod bound == (-bound) %% bound" % thr_form
+            ctx.inst("T.prng-constants", f.sig, ok, f.loc, thr_bad or "returns r %% bound under r >= threshold: %s%s" % (
+                ok, "; threshold %s" % thr_form if thr_form else ""), f)
     for f in unit.functions:
         if f.uq == "frg::insertion_sort":
             sw = [n for n in f.events() if n.is_call() and n.callee and n.callee["uq"] == "std::swap"]
@@ -839,3 +898,95 @@ def _counts_up_from_zero(f, did):
                 return True
     return False
 
+
+
+def _linear_in(x, did, depth=0):
+    """(a, c) with x == a*v + c as integers (before any reduction), v the variable `did`; None if x is not of that form"""
+    x = std_unwrap(x)
+    hops = 0
+    while x.kind in ("ImplicitCastExpr", "CStyleCastExpr", "CXXStaticCastExpr", "CXXFunctionalCastExpr", "ParenExpr") and x.children and hops < 6:
+        x, hops = std_unwrap(x.children[0]), hops + 1
+    if depth > 12:
+        return None
+    if x.kind == "DeclRefExpr" and x.d.get("d") == did:
+        return (1, 0)
+    c = x.cv()
+    if c is not None:
+        return (0, c)
+    if x.kind == "UnaryOperator" and x.op in ("-", "~", "+") and x.children:
+        l = _linear_in(x.children[0], did, depth + 1)
+        if l is None:
+            return None
+        return {"-": (-l[0], -l[1]), "~": (-l[0], -l[1] - 1), "+": l}[x.op]
+    if x.kind == "BinaryOperator" and x.op in ("+", "-") and len(x.children) == 2:
+        l, r = _linear_in(x.children[0], did, depth + 1), _linear_in(x.children[1], did, depth + 1)
+        if l is None or r is None:
+            return None
+        return (l[0] + r[0], l[1] + r[1]) if x.op == "+" else (l[0] - r[0], l[1] - r[1])
+    return None
+
+
+def check_minmax(ctx, unit, rule="E.minmax-tie"):
+    """frg::min / frg::max against std::min / std::max, which are specified through operator< alone: max(a, b) is b exactly
+    where a < b holds and a otherwise; min(a, b) is b exactly where b < a holds and a otherwise.  Where neither argument is
+    less than the other (equivalent records, an unordered pair) both return their FIRST argument.  Decided on the
+    instantiations for int and for a class type from the facts under which each argument is returned."""
+    from .ir import exit_values
+    ctx.rule(rule, "frg::max(a, b) returns b exactly under a < b and frg::min(a, b) returns b exactly under b < a: on a tie both "
+             "return their first argument, as std::min/std::max do", 4)
+    fns = [f for f in unit.functions if f.uq in ("frg::min", "frg::max") and f.blocks and len(f.params()) == 2]
+    if len(fns) < 4:
+        raise AnalysisBroken("anchor vanished: instantiations of frg::min/frg::max (found %d)" % len(fns))
+    for f in fns:
+        a, b = f.params()[0]["d"], f.params()[1]["d"]
+        want = (a, b) if f.name == "max" else (b, a)       # the `<` whose truth selects b
+
+        def less(c):
+            """(lhs did, rhs did, negated) if c is [!]* (x < y) on the two parameters"""
+            c, neg = std_unwrap(c), False
+            while c.kind == "UnaryOperator" and c.op == "!" and c.children:
+                c, neg = std_unwrap(c.children[0]), not neg
+            ops = None
+            if c.kind == "BinaryOperator" and c.op == "<":
+                ops = c.children
+            elif c.kind == "CXXOperatorCallExpr" and c.callee and c.callee.get("op") == "<" and len(c.args) == 2:
+                ops = c.args
+            if ops is None:
+                return None
+            ds = [std_unwrap(o) for o in ops]
+            if all(o.kind == "DeclRefExpr" for o in ds):
+                return (ds[0].d["d"], ds[1].d["d"], neg)
+            return None
+        problems, n = [], 0
+
+        def judge(v, facts, loc):
+            nonlocal n
+            v = std_unwrap(v)
+            if v.kind == "ConditionalOperator" and len(v.children) == 3:
+                judge(v.children[1], facts + [(v.children[0], True)], loc)
+                judge(v.children[2], facts + [(v.children[0], False)], loc)
+                return
+            if v.kind != "DeclRefExpr" or v.d.get("d") not in (a, b):
+                problems.append("returns something other than one of its arguments at %s" % loc)
+                return
+            n += 1
+            known = None
+            for c, t in facts:
+                l = less(c)
+                if l is None:
+                    if c is not None and any(x.kind == "DeclRefExpr" and x.d.get("d") in (a, b) for x in c.walk()):
+                        problems.append("decides with %s, not with operator< alone" % canon(std_unwrap(c)).replace("#%d" % a, "").replace("#%d" % b, ""))
+                    continue
+                if (l[0], l[1]) == want:
+                    known = (t != l[2])
+                else:
+                    problems.append("decides with the comparison in the other direction: on a tie the second argument is returned")
+            if v.d["d"] == b and known is not True:
+                problems.append("returns its second argument without %s known" % ("a < b" if f.name == "max" else "b < a"))
+            if v.d["d"] == a and known is not False and known is not None:
+                problems.append("returns its first argument although the second one was found %s" % ("greater" if f.name == "max" else "less"))
+        for anc, v in exit_values(f):
+            if v is not None:
+                judge(v, list(flow.facts_at(f, anc.id)), anc.loc)
+        ctx.inst(rule, "%s<%s>" % (f.uq, (f.get("targs") or "").strip("<>")), not problems and n >= 2, f.loc,
+                 "; ".join(sorted(set(problems))[:2]) if problems else "%d returns, the second argument only under the strict comparison" % n, f)
